@@ -33,7 +33,13 @@ ANNOTATION_FIELDS = {"documentation", "since", "sinceTags", "proposed", "depreca
 EQ_EXCEPTIONS = {("Enum", "supportsCustomValues"), ("Request", "typeName"), ("Notification", "typeName")}
 
 
-def check_eq(ctx: Ctx, cname: str, info: dict):
+def check_eq(ctx: Ctx, cname: str, info: dict, it, classes):
+    """Semantic check of one hand-written __eq__ (E5): it is evaluated on abstract instances whose fields hold
+    distinct sentinels.  (1) a foreign operand gives False (never raises); (2) two instances equal in every field
+    compare equal, also when only the random id_ differs; (3) instances that differ in exactly one structural field
+    compare unequal -- for list-valued fields the difference is a prefix, a permutation and a multiplicity change;
+    (4) nothing raises.  Independent of how the method is written (guard clause, helper, early return)."""
+    from ..microeval import Record, Raised
     fn = info["methods"].get("__eq__")
     fields = info["fields"]
     if fn is None:
@@ -41,53 +47,51 @@ def check_eq(ctx: Ctx, cname: str, info: dict):
                  info["node"].lineno)
         return
     ctx.fn(f"model.py:{cname}.__eq__")
-    if len(fn.args.args) != 2:
-        raise AnalysisError(f"{P_MODEL}: {cname}.__eq__ signature")
-    me, other = fn.args.args[0].arg, fn.args.args[1].arg
-    compared = set()
-    ok_shape = True
-    for node in ast.walk(fn):
-        if isinstance(node, ast.Attribute) and isinstance(node.value, ast.Name) and node.value.id in (me, other):
-            ctx.check(node.attr in fields, "eq-reads-declared-fields", f"{cname}.__eq__:{node.value.id}.{node.attr}",
-                      f"{cname}.__eq__ reads .{node.attr}, which is not a field of {cname}: comparing two equal-named "
-                      f"instances raises AttributeError", P_MODEL, node.lineno)
-            ctx.check(node.attr != "id_", "eq-ignores-random-id", f"{cname}.__eq__:id_",
-                      "the random id_ takes part in equality: two loads of one document compare unequal", P_MODEL, node.lineno)
-        if isinstance(node, ast.Compare):
-            if len(node.ops) == 1 and isinstance(node.ops[0], ast.Eq):
-                l, r = node.left, node.comparators[0]
-                if (isinstance(l, ast.Attribute) and isinstance(r, ast.Attribute) and dotted(l.value) == me
-                        and dotted(r.value) == other and l.attr == r.attr):
-                    compared.add(l.attr)
-                    continue
-                if (isinstance(l, ast.Attribute) and isinstance(r, ast.Attribute) and dotted(l.value) == other
-                        and dotted(r.value) == me and l.attr == r.attr):
-                    compared.add(l.attr)
-                    continue
-            ok_shape = False
-            ctx.fail("eq-shape", f"{cname}.__eq__:compare", f"comparison `{ast.unparse(node)}` is not `self.f == other.f`",
-                     P_MODEL, node.lineno)
-        if isinstance(node, ast.BoolOp) and not isinstance(node.op, ast.And):
-            ok_shape = False
-            ctx.fail("eq-shape", f"{cname}.__eq__:or", "fields are not combined by `and`", P_MODEL, node.lineno)
-        if isinstance(node, ast.UnaryOp) and isinstance(node.op, ast.Not):
-            ok_shape = False
-            ctx.fail("eq-shape", f"{cname}.__eq__:not", "negation inside __eq__", P_MODEL, node.lineno)
-    # guard shape: if isinstance(other, C): return <expr>; return False
-    body = [s for s in fn.body if not (isinstance(s, ast.Expr) and isinstance(s.value, ast.Constant))]
-    guard = (len(body) == 2 and isinstance(body[0], ast.If) and isinstance(body[0].test, ast.Call)
-             and dotted(body[0].test.func) == "isinstance" and len(body[0].test.args) == 2
-             and dotted(body[0].test.args[0]) == other and dotted(body[0].test.args[1]) == cname
-             and not body[0].orelse and len(body[0].body) == 1 and isinstance(body[0].body[0], ast.Return)
-             and isinstance(body[1], ast.Return) and isinstance(body[1].value, ast.Constant)
-             and body[1].value.value is False)
-    ctx.check(guard, "eq-shape", f"{cname}.__eq__:guard",
-              f"__eq__ is not `if isinstance(other, {cname}): return ...; return False`", P_MODEL, fn.lineno)
-    want = {f for f in fields if f not in ANNOTATION_FIELDS and f != "id_" and (cname, f) not in EQ_EXCEPTIONS}
-    for f in sorted(want):
-        ctx.check(f in compared, "eq-compares-structure", f"{cname}.{f}",
-                  f"{cname}.__eq__ does not compare the structural field {f}: structurally different documents "
-                  "compare equal", P_MODEL, fn.lineno, sample={"class": cname, "field": f})
+    listy = {f for f, mf in fields.items() if mf.converter is not None and isinstance(mf.converter, ast.Call)
+             and dotted(mf.converter.func) == "list_converter"}
+
+    def inst(**over):
+        vals = {}
+        for i_, f in enumerate(fields):
+            vals[f] = [f"{f}-1", f"{f}-2"] if f in listy else f"{f}-value"
+        vals.update(over)
+        return Record(cname, vals, classes)
+
+    def call(a, b):
+        try:
+            r = it.call(fn, [a, b])
+        except Raised as e:
+            return ("raises", e.exc_name)
+        return r
+    base = inst()
+    for label, other in (("foreign-object", Record("SomethingElse", {}, classes)), ("none", None), ("string", "x")):
+        r = call(base, other)
+        ctx.check(r is False or r is NotImplemented, "eq-never-raises", f"{cname}.__eq__:{label}",
+                  f"{cname}.__eq__(<{label}>) gives {r!r}; it must return False", P_MODEL, fn.lineno)
+    r = call(base, inst())
+    ctx.check(r is True, "eq-same-content-equal", f"{cname}.__eq__:identical",
+              f"two {cname} instances with identical content compare as {r!r} (comparing two loads of one document "
+              f"{'raises' if isinstance(r, tuple) else 'gives unequal'})", P_MODEL, fn.lineno,
+              sample={"class": cname, "case": "identical content"})
+    if "id_" in fields:
+        r = call(base, inst(id_="another-random-id"))
+        ctx.check(r is True, "eq-ignores-random-id", f"{cname}.__eq__:id_",
+                  f"instances that differ only in the random id_ compare as {r!r}: two loads of one document are unequal",
+                  P_MODEL, fn.lineno)
+    want = [f for f in fields if f not in ANNOTATION_FIELDS and f != "id_" and (cname, f) not in EQ_EXCEPTIONS]
+    for f in want:
+        variants = [("changed", f"{f}-other")]
+        if f in listy:
+            variants = [("element-changed", [f"{f}-1", f"{f}-X"]), ("prefix", [f"{f}-1"]), ("extended", [f"{f}-1", f"{f}-2", f"{f}-3"]),
+                        ("permuted", [f"{f}-2", f"{f}-1"]), ("multiplicity", [f"{f}-1", f"{f}-1", f"{f}-2"])]
+        for label, val in variants:
+            for a, b, side in ((base, inst(**{f: val}), "right"), (inst(**{f: val}), base, "left")):
+                r = call(a, b)
+                ctx.check(r is False, "eq-compares-structure", f"{cname}.{f}:{label}",
+                          f"two {cname} instances that differ only in `{f}` ({label}) compare as {r!r}: structurally "
+                          "different documents compare equal" if not isinstance(r, tuple) else
+                          f"comparing {cname} instances that differ in `{f}` raises {r[1]}", P_MODEL, fn.lineno,
+                          sample={"class": cname, "field": f, "variant": label})
 
 
 def conv_target(expr):
@@ -117,9 +121,22 @@ def run(ctx: Ctx):
     mod = Module(P_MODEL, ctx.src.text(P_MODEL))
     classes = model_classes(mod)
     ctx.floor("attrs model classes", len(classes), 18)
+    from ..microeval import Interp
+    eq_it = Interp(name=P_MODEL)
+    eq_classes = {cn: dict(inf["methods"]) for cn, inf in classes.items()}
+    eq_it.classes = eq_classes
+    for st in mod.tree.body:        # module-level helper functions the methods may call
+        if isinstance(st, ast.FunctionDef):
+            from ..microeval import Closure, ClassRef
+            eq_it.globals[st.name] = Closure(st, None, eq_it)
+    for cn in classes:
+        from ..microeval import ClassRef
+        eq_it.globals[cn] = ClassRef(cn)
     for cname, info in classes.items():
-        check_eq(ctx, cname, info)
+        check_eq(ctx, cname, info, eq_it, eq_classes)
 
+    from ..microeval import Interp as _Interp
+    const_it = _Interp(mod.tree, name=P_MODEL)      # module-level constants (hoisted name lists)
     # ------------------------------------------------------------------ (b) loader <-> schema
     schema = ctx.src.json(P_SCHEMA)
     defs = schema.get("definitions")
@@ -167,7 +184,7 @@ def run(ctx: Ctx):
             f = fields[p]
             # value lists
             if "const" in s:
-                vals = in_list_values(f.validator)
+                vals = in_list_values(f.validator, const_it)
                 ctx.check(vals == [s["const"]], "name-lists-agree", f"{cname}.{p}",
                           f"{cname}.{p} accepts {vals}, schema const is {s['const']!r}", P_MODEL, f.node.lineno)
             tgt_schema = ref_of(s)
@@ -184,7 +201,7 @@ def run(ctx: Ctx):
                 continue
             sd = defs.get(tgt_schema, {})
             if "enum" in sd:       # string enum definition (BaseTypes, MessageDirection)
-                vals = in_list_values(f.validator)
+                vals = in_list_values(f.validator, const_it)
                 ctx.check(vals is not None and sorted(vals) == sorted(sd["enum"]), "name-lists-agree", f"{cname}.{p}",
                           f"{cname}.{p} accepts {vals}; schema {tgt_schema} allows {sd['enum']}", P_MODEL, f.node.lineno)
                 continue
@@ -247,7 +264,7 @@ def run(ctx: Ctx):
             else:
                 names = m["properties"]["name"].get("enum")
                 f = classes.get("BaseMapKeyType", {}).get("fields", {}).get("name")
-                vals = in_list_values(f.validator) if f else None
+                vals = in_list_values(f.validator, const_it) if f else None
                 ctx.check(vals is not None and sorted(vals) == sorted(names), "name-lists-agree", "BaseMapKeyType.name",
                           f"BaseMapKeyType.name accepts {vals}; schema allows {names}", P_MODEL)
 
@@ -256,6 +273,11 @@ def run(ctx: Ctx):
     ctx.extra["schema_model_pairs"] = sorted(f"{a}<->{b}" for a, b in seen)
 
     # ------------------------------------------------------------------ (c) merge
+    # create_lsp_model is executed in the micro-evaluator on three synthetic documents with LSPModel stubbed: the
+    # result must be the first document's model extended, in order, by the others' declarations, for every
+    # list-valued field; the caller's documents must be left untouched and a second load must give the same model.
+    from ..microeval import Interp as _I2, Record as _Rec, ClassRef as _CR, Raised as _Raised
+    import copy as _copy
     clm = mod.functions.get("create_lsp_model")
     if clm is None:
         raise AnalysisError(f"{P_MODEL}: create_lsp_model not found")
@@ -264,26 +286,51 @@ def run(ctx: Ctx):
     list_fields = [n for n, f in lsp_fields.items()
                    if isinstance(f.converter, ast.Call) and dotted(f.converter.func) == "list_converter"]
     ctx.floor("list-valued LSPModel fields", len(list_fields), 5)
-    extended = {}
-    loop = None
-    for node in ast.walk(clm):
-        if isinstance(node, ast.For):
-            loop = node
-            for c in calls_in(node):
-                if isinstance(c.func, ast.Attribute) and c.func.attr == "extend" and isinstance(c.func.value, ast.Attribute) \
-                        and len(c.args) == 1 and isinstance(c.args[0], ast.Attribute):
-                    extended[c.func.value.attr] = (c.args[0].attr, dotted(c.func.value.value), dotted(c.args[0].value))
-    ctx.check(loop is not None, "merge-extends-all", "create_lsp_model:loop", "no loop over the further models", P_MODEL, clm.lineno)
-    for n in list_fields:
-        e = extended.get(n)
-        ctx.check(e is not None and e[0] == n, "merge-extends-all", f"LSPModel.{n}",
-                  f"create_lsp_model does not extend spec.{n} with addition.{n} ({e})", P_MODEL, clm.lineno)
-    if loop is not None:
-        it = loop.iter
-        ok = isinstance(it, ast.Subscript) and isinstance(it.slice, ast.Slice) and isinstance(it.slice.lower, ast.Constant) \
-            and it.slice.lower.value == 1 and it.slice.upper is None and it.slice.step is None
-        ctx.check(ok, "merge-extends-all", "create_lsp_model:range",
-                  f"the merge loop iterates `{ast.unparse(it)}`, not models[1:]", P_MODEL, loop.lineno)
+    docs = []
+    for di in range(3):
+        d = {n: [f"{n}-{di}-a", f"{n}-{di}-b"] for n in list_fields}
+        d["metaData"] = {"version": f"v{di}"}
+        docs.append(d)
+    pristine = _copy.deepcopy(docs)
+
+    def mk_model(**kw):
+        missing = [n for n in lsp_fields if n not in kw]
+        if missing:
+            raise _Raised("TypeError", (f"missing {missing}",))
+        return _Rec("LSPModel", {k: (list(v) if isinstance(v, list) else v) for k, v in kw.items()})
+    mit = _I2(mod.tree, name=P_MODEL)
+    mit.globals["LSPModel"] = _CR("LSPModel", "attrs", call=mk_model)
+    results = []
+    for _round in range(2):
+        try:
+            r = mit.call(clm, [docs])
+        except _Raised as e:
+            ctx.fail("merge-extends-all", "create_lsp_model:raises", f"create_lsp_model raises {e.exc_name} on three documents", P_MODEL, clm.lineno)
+            r = None
+        results.append(r)
+    r = results[0]
+    if isinstance(r, _Rec):
+        for n in list_fields:
+            want = [x for d in pristine for x in d[n]]
+            got = r.fields.get(n)
+            ctx.check(got == want, "merge-extends-all", f"LSPModel.{n}",
+                      f"loading three documents gives {n} = {got}; expected the first document's list extended in order by the "
+                      f"others': {want}", P_MODEL, clm.lineno, sample={"field": n, "merged": got})
+        ctx.check(r.fields.get("metaData") == pristine[0]["metaData"], "merge-extends-all", "LSPModel.metaData",
+                  "the merged model does not keep the first document's metaData", P_MODEL, clm.lineno)
+        ctx.check(docs == pristine, "merge-leaves-documents-untouched", "create_lsp_model:inputs",
+                  "create_lsp_model modifies the documents it is given: loading them again gives a different model",
+                  P_MODEL, clm.lineno)
+        r2 = results[1]
+        same = isinstance(r2, _Rec) and all(r2.fields.get(n) == r.fields.get(n) for n in list_fields)
+        ctx.check(same, "merge-leaves-documents-untouched", "create_lsp_model:second-load",
+                  "a second load of the same documents gives a different model", P_MODEL, clm.lineno)
+    try:
+        single = mit.call(clm, [[_copy.deepcopy(pristine[0])]])
+        ok1 = isinstance(single, _Rec) and all(single.fields.get(n) == pristine[0][n] for n in list_fields)
+    except _Raised:
+        ok1 = False
+    ctx.check(ok1, "merge-extends-all", "create_lsp_model:single", "a single document is not loaded as itself", P_MODEL, clm.lineno)
 
     # ------------------------------------------------------------------ (d) gate
     mm = Module(P_MAIN, ctx.src.text(P_MAIN))
@@ -291,65 +338,101 @@ def run(ctx: Ctx):
     if main is None:
         raise AnalysisError(f"{P_MAIN}: main not found")
     ctx.fn("__main__.py:main")
-    order = statement_order(main)
+
+    # main() with calls to helper functions of the same module expanded in place (so that the order of effects is
+    # the run-time order however the code is split into functions)
+    def expanded(fn, depth=0, ctxs=()):
+        out = []
+        for _i, st, c in statement_order(fn):
+            compound = isinstance(st, (ast.For, ast.If, ast.Try, ast.With, ast.While))
+            out.append((st, ctxs + c, fn))
+            if compound or depth >= 3:
+                continue
+            for call in calls_in(st):
+                d = dotted(call.func)
+                if d in mm.functions and d != fn.name:
+                    out.extend(expanded(mm.functions[d], depth + 1, ctxs + c + ((st, "call:" + d),)))
+        return out
+    order = [(i_, st, c, fn) for i_, (st, c, fn) in enumerate(expanded(main))]
+
+    def simple_calls(st):
+        return [] if isinstance(st, (ast.For, ast.If, ast.Try, ast.With, ast.While)) else list(calls_in(st))
 
     def first(pred):
-        for i, st, c in order:
-            for call in calls_in(st) if not isinstance(st, (ast.For, ast.If, ast.Try, ast.With, ast.While)) else \
-                    (x for x in calls_in(st) if False):
+        for i_, st, c, fn in order:
+            for call in simple_calls(st):
                 if pred(call):
-                    return i, st, c, call
+                    return i_, st, c, call, fn
         return None
     val = first(lambda c: (dotted(c.func) or "").endswith("jsonschema.validate") or dotted(c.func) == "validate")
     create = first(lambda c: (dotted(c.func) or "").endswith("create_lsp_model"))
-    plug_import = first(lambda c: dotted(c.func) in ("custom_plugin", "importlib.import_module"))
+    plug_import = first(lambda c: dotted(c.func) in ("importlib.import_module",))
     plug_call = first(lambda c: (dotted(c.func) or "").endswith(".generate"))
     if create is None or plug_call is None:
         raise AnalysisError(f"{P_MAIN}: create_lsp_model / plugin generate call not found in main")
     ctx.check(val is not None, "validate-dominates", "main:validate-present",
               "main() never calls jsonschema.validate", P_MAIN, main.lineno)
     if val is not None:
-        vi, vst, vctx, vcall = val
-        in_try = any(isinstance(s, ast.Try) for s, _ in vctx)
+        vi, vst, vctx, vcall, vfn = val
+        in_try = any(isinstance(s_, ast.Try) for s_, _ in vctx)
         ctx.check(not in_try, "validate-dominates", "main:validate-not-in-try",
                   "jsonschema.validate is inside a try block: a validation error may be swallowed", P_MAIN, vst.lineno)
-        cond = [s for s, _ in vctx if isinstance(s, (ast.If, ast.While))]
+        cond = [s_ for s_, _ in vctx if isinstance(s_, (ast.If, ast.While))]
         ctx.check(not cond, "validate-dominates", "main:validate-unconditional",
                   "jsonschema.validate is guarded by a condition", P_MAIN, vst.lineno)
         ctx.check(vi < create[0] and vi < plug_call[0] and (plug_import is None or vi < plug_import[0]),
                   "validate-dominates", "main:validate-before-generate",
                   "jsonschema.validate does not precede create_lsp_model / plugin import / plugin call", P_MAIN, vst.lineno)
-        # every element reaching create_lsp_model is validated: the validated name is what gets appended,
-        # in the same loop body, after validation
-        loops = [s for s, _ in vctx if isinstance(s, ast.For)]
-        arg = create[3].args[0] if create[3].args else None
-        listname = dotted(arg) if arg is not None else None
-        appended_ok = False
+        # every element reaching create_lsp_model is validated: in the function that validates, the validated name is
+        # what gets appended, in the same loop body, after validation; that list is what create_lsp_model receives
+        loops = [s_ for s_, _ in vctx if isinstance(s_, ast.For)]
         validated = dotted(vcall.args[0]) if vcall.args else None
-        if loops and listname:
+        listname = None
+        appended_ok = False
+        if loops:
             lp = loops[-1]
             seen_validate = False
             for st in lp.body:
                 for c in calls_in(st):
                     if c is vcall:
                         seen_validate = True
-                    if isinstance(c.func, ast.Attribute) and c.func.attr == "append" and dotted(c.func.value) == listname:
-                        appended_ok = seen_validate and len(c.args) == 1 and dotted(c.args[0]) == validated
+                    if isinstance(c.func, ast.Attribute) and c.func.attr == "append" and len(c.args) == 1 \
+                            and dotted(c.args[0]) == validated:
+                        listname = dotted(c.func.value)
+                        appended_ok = seen_validate
+        flows = False
+        if listname:
+            arg = create[3].args[0] if create[3].args else None
+            argname = dotted(arg) if arg is not None else None
+            if create[4] is vfn:
+                flows = argname == listname
+            else:
+                # list returned by the validating helper and bound in the caller
+                returns = [r_ for r_ in ast.walk(vfn) if isinstance(r_, ast.Return)]
+                ret_ok = bool(returns) and all(dotted(r_.value) == listname for r_ in returns)
+                bound = False
+                for st in ast.walk(create[4]):
+                    if isinstance(st, (ast.Assign, ast.AnnAssign)) and isinstance(st.value, ast.Call) \
+                            and dotted(st.value.func) == vfn.name:
+                        tgt = st.targets[0] if isinstance(st, ast.Assign) else st.target
+                        bound = bound or dotted(tgt) == argname
+                flows = ret_ok and bound
             other_adds = 0
-            for i, st, c in order:
-                for call in calls_in(st) if not isinstance(st, (ast.For, ast.If, ast.Try, ast.With, ast.While)) else []:
+            for i_, st, c, fn in order:
+                for call in simple_calls(st):
                     if isinstance(call.func, ast.Attribute) and call.func.attr in ("append", "extend", "insert") \
-                            and dotted(call.func.value) == listname and lp not in [s for s, _ in c]:
+                            and dotted(call.func.value) in (listname, argname) and not (fn is vfn and lp in [s_ for s_, _ in c]):
                         other_adds += 1
             appended_ok = appended_ok and other_adds == 0
-        ctx.check(appended_ok, "validate-dominates", "main:every-model-validated",
-                  f"not every document appended to `{listname}` is the one just validated", P_MAIN, vst.lineno)
+        ctx.check(appended_ok and flows, "validate-dominates", "main:every-model-validated",
+                  f"not every document handed to create_lsp_model is one that was just validated (list `{listname}`)",
+                  P_MAIN, vst.lineno)
         # no write before validation
         writes = []
-        for i, st, c in order:
-            if i >= vi:
+        for i_, st, c, fn in order:
+            if i_ >= vi:
                 break
-            for call in calls_in(st) if not isinstance(st, (ast.For, ast.If, ast.Try, ast.With, ast.While)) else []:
+            for call in simple_calls(st):
                 d = dotted(call.func) or ""
                 if d.split(".")[-1] in ("write_text", "write_bytes", "mkdir", "unlink", "write", "makedirs", "rmtree"):
                     writes.append(d)
